@@ -320,7 +320,27 @@ Bytes hostile_answer(Rng &r, const Bytes &orig, int uid)
 	}
 	char cmd = qname.empty() ? 'p' : qname[0];
 	if (r.chance(0.1)) id = (uint16_t)(id + r.range(1, 7));                       // wrong id
-	int mode = (int)r.range(0, 11);
+	int mode = (int)r.range(0, 12);
+	if (mode == 12) {
+		// a name that ends in the FIRST octet of a compression pointer, and that octet is the last one of the datagram: the
+		// second octet of the pointer would have to come from whatever lies behind the datagram. In the question, in the owner
+		// name, or inside RDATA (CNAME target, MX/SRV exchange) - the places that are parsed by different code.
+		Bytes b;
+		int where = (int)r.range(0, 3);
+		hdr(b, id, 0x8400, 1, 1, 0, 0);
+		Bytes lab; { Bytes flat = rnd_alpha(r, r.range(1, 60), (int)r.range(0, 3)); flat[0] = "hijkHIJKtsuvr"[r.range(0, 12)]; put_labels(lab, flat, 63); }
+		if (where == 0) { b.insert(b.end(), lab.begin(), lab.end()); b.push_back(0xc0); return b; }
+		if (qend > 12) b.insert(b.end(), orig.begin() + 12, orig.begin() + qend); else { put_labels(b, Bytes{'p', 'a'}, 63); b.push_back(0); put16(b, qtype); put16(b, 1); }
+		if (where == 1) { b.insert(b.end(), lab.begin(), lab.end()); b.push_back(0xc0); return b; }
+		uint16_t t = where == 2 ? QT_CNAME : (r.chance(0.5) ? QT_MX : QT_SRV);
+		rr_head(b, t);
+		Bytes rd;
+		if (t != QT_CNAME) { put16(rd, 10); if (t == QT_SRV) { put16(rd, 10); put16(rd, 5060); } }
+		rd.insert(rd.end(), lab.begin(), lab.end()); rd.push_back(0xc0);
+		put16(b, (uint16_t)(rd.size() + (r.chance(0.5) ? 1 : 0)));     // RDLENGTH as if the pointer were complete, or exact
+		b.insert(b.end(), rd.begin(), rd.end());
+		return b;
+	}
 	if (mode <= 3) {
 		// well-formed DNS, hostile tunnel payload
 		Bytes pl = hostile_payload_for(r, r.chance(0.85) ? cmd : "vlisoyzrnp0"[r.range(0, 10)], uid);
